@@ -132,7 +132,7 @@ def replay(body):
 def run(ctx):
     rng = ctx.rng
     ctx.check_theorems()
-    ctx.check_generated(['eval', 'qpat', 'qus', 'k', 'kelev'])
+    ctx.check_generated(['eval', 'qpat', 'qus', 'k', 'kelev', 'kcrop'])
 
     # (K1) integer output buffers: Eval.store_int vs numpy for the dtypes the batch helpers return
     pattern, desc = cl.rand_pattern(rng, cmax=3, kinds=['RadialGradient'])
@@ -193,6 +193,9 @@ def run(ctx):
         pattern, desc = cl.rand_pattern(rng, cmax=7)
         c = pattern.get_crop_size()
         fy, fx = int(rng.integers(2, 48)), int(rng.integers(2, 48))
+        if k % 6 == 5:
+            # frames smaller than the pattern (the balancing ring of a background-subtracting pattern may miss the frame entirely)
+            fy, fx = int(rng.integers(2, max(3, c))), int(rng.integers(2, max(3, c)))
         frame, kind = rand_data(rng, fy, fx)
         n = int(rng.integers(1, 8))
         peaks = [(int(rng.integers(-2 * c, fy + 2 * c + 1)), int(rng.integers(-2 * c, fx + 2 * c + 1))) for _ in range(n)]
@@ -216,5 +219,5 @@ def run(ctx):
                     'weights), positive denominator at the first maximum (no 0/0), in-bounds reads, elevation finite for maps >= 4x4, upsampled grid bound '
                     '0.75+0.5/u. Tie: store_int vs numpy for the dtypes the batch helpers actually return, upsampled region size spied from the running '
                     'code, pipeline model vs outputs; oracle: the statement on NaN-guarded frames of 7 data kinds, |values| <= 1e6.',
-        rule='(S) random patterns (5 classes, crop size 2..7), shapes 2..47, 1..7 peaks in [-2c, shape+2c], upsample in {True,2..50}, low-level (both crop back-ends) and high-level '
+        rule='(S) random patterns (5 classes, crop size 2..7), shapes 2..47 (every sixth frame smaller than the pattern), 1..7 peaks in [-2c, shape+2c], upsample in {True,2..50}, low-level (both crop back-ends) and high-level '
              'entry points, upsampling on/off compared; distinct by (pattern, shape, peaks, upsample, data kind).')
